@@ -2353,7 +2353,7 @@ fn c20_leave_vs_rejoin_body() -> vsched::Body {
         let original = ractor::pg::get_members(&"late".to_string()).iter().any(|c| c.get_id() == q.get_id());
         let mirrored = remote_ref_of(q.get_id(), "late").is_some();
         if original != mirrored {
-            bad.push(format!("after a leave and a join of the same live actor raced, the original is {} of the group but its remote reference on the peer is {} [[sig:pg-notifications-overtake-each-other]]", if original { "a member" } else { "not a member" }, if mirrored { "a member" } else { "not a member" }));
+            bad.push(format!("after a leave and a join of the same live actor raced, the original is {} of the group but its remote reference on the peer is {}", if original { "a member" } else { "not a member" }, if mirrored { "a member" } else { "not a member" }));
         }
         q.stop(None);
         let _ = qh.await;
